@@ -21,12 +21,34 @@ type Trace struct {
 	scn    string
 }
 
+var (
+	activeMu sync.Mutex
+	active   []*Trace
+)
+
 func NewTrace(path string) (*Trace, error) {
 	f, err := os.Create(path)
 	if err != nil {
 		return nil, err
 	}
-	return &Trace{f: f, w: bufio.NewWriterSize(f, 1<<20), Counts: map[string]int{}}, nil
+	t := &Trace{f: f, w: bufio.NewWriterSize(f, 1<<20), Counts: map[string]int{}}
+	activeMu.Lock()
+	active = append(active, t)
+	activeMu.Unlock()
+	return t, nil
+}
+
+// FlushAll writes out what every open trace has buffered (used when a driver
+// has to give up: the partial trace is still evidence).
+func FlushAll() {
+	activeMu.Lock()
+	defer activeMu.Unlock()
+	for _, t := range active {
+		if t.mu.TryLock() {
+			t.w.Flush()
+			t.mu.Unlock()
+		}
+	}
 }
 
 // Lock / Unlock let a driver make an environment step (e.g. set the clock)
